@@ -143,7 +143,8 @@ fn profile(desc: &Value) -> (Vec<(f64, f64)>, Vec<f64>) {
         for r in ga(l, "rs") {
             let s = r[0].as_f64().unwrap() / os + base;
             let e = r[1].as_f64().unwrap() / os + base + if head { 0.0 } else { tl };
-            let v = r[2].as_f64().unwrap() / vs;
+            // a restriction may be written with a negative value: it restricts by its magnitude
+            let v = (r[2].as_f64().unwrap() / vs).abs();
             if v < vm && s < e {
                 rs.push((s, e, v));
             }
@@ -250,7 +251,13 @@ fn table_event(sim: &SpeedLimitTrainSim, ok: bool, msg: &str) -> Value {
         .path_tpc
         .speed_points()
         .iter()
-        .map(|p| json!([qi(p.offset.value, OS), q_ceil(p.speed_limit.value.abs(), VS)]))
+        // the signed value PathTpc stores (a negative value is an encoding, the limit is its magnitude:
+        // track/link/speed/speed_limit.rs:3-9); magnitude rounded up, sign kept — the spec takes Abs
+        .map(|p| {
+            let v = p.speed_limit.value;
+            let m = q_ceil(v.abs(), VS).as_i64().unwrap_or(INF);
+            json!([qi(p.offset.value, OS), if v < 0.0 { -m } else { m }])
+        })
         .collect();
     let bp = serde_json::to_value(&sim.braking_points).unwrap();
     let pts: Vec<Value> = bp["points"]
@@ -1003,6 +1010,9 @@ fn gen_base(r: &mut Rng, tier: &str, want: &str) -> Value {
     for k in 0..lens.len() {
         desc["links"][k]["rs"] = Value::Array(draw(r, lens[k], false));
     }
+    // 1 network in 6 writes restrictions with NEGATIVE values (accepted by validation, used by magnitude
+    // everywhere): a random subset, or all of them
+    let neg_mode = if r.chance(1, 6) { if r.chance(1, 3) { 2 } else { 1 } } else { 0 };
     let want_short = want == "short";
     let allow_origin = r.chance(1, 12);
     let mut tries = 0;
@@ -1022,6 +1032,17 @@ fn gen_base(r: &mut Rng, tier: &str, want: &str) -> Value {
         let k = if near_origin(&desc) && !allow_origin { 0 } else { r.range(0, lens.len() as i64 - 1) as usize };
         let simple = tries > 200 && r.chance(1, 2);
         desc["links"][k]["rs"] = Value::Array(draw(r, lens[k], simple));
+    }
+    if neg_mode > 0 {
+        for k in 0..lens.len() {
+            let nr = desc["links"][k]["rs"].as_array().unwrap().len();
+            for j in 0..nr {
+                if neg_mode == 2 || r.chance(1, 2) {
+                    let v = desc["links"][k]["rs"][j][2].as_i64().unwrap();
+                    desc["links"][k]["rs"][j][2] = json!(-v.abs());
+                }
+            }
+        }
     }
     desc
 }
